@@ -1,0 +1,29 @@
+//go:build verif
+
+// Contracts for /verif/govc (comment-only file; never part of a normal build).
+package readerat
+
+//@ default mode int
+
+// Read: the offset stays within [old offset, Size], advances by exactly the count
+// returned, and at most len(p) bytes are reported; a clean end is io.EOF exactly when
+// the offset has reached Size.
+//@ func (*ReadSeeker).Read
+//@   prop C14
+//@   requires r != nil && r.offset >= 0 && implies(r.Size >= 0 && r.offset < r.Size, r.ReaderAt != nil)
+//@   ensures 0 <= result0 && result0 <= len(p) && r.offset == old(r.offset) + int64(result0) && unchanged(r.Size)
+//@   ensures[within] implies(old(r.Size) >= 0 && old(r.offset) <= old(r.Size), r.offset <= r.Size)
+//@   ensures[eof] implies(old(r.Size) >= 0 && old(r.Size) <= old(r.offset), result0 == 0 && result1 == io.EOF)
+//@   ensures[noprogress] implies(result0 == 0 && result1 == nil, len(p) == 0)
+//@   modifies r.offset, mem(p)
+
+// Seek: the position an in-memory reader would compute; an error leaves the offset
+// alone; the additions may wrap int64 (pos + pos -> negative -> rejected).
+//@ func (*ReadSeeker).Seek
+//@   prop C14
+//@   wraps add
+//@   requires r != nil && r.offset >= 0
+//@   ensures[ok] implies(result1 == nil, result0 == r.offset && r.offset >= 0 && math(r.offset) == ite(whence == 0, math(offset), ite(whence == 1, math(offset) + math(old(r.offset)), math(offset) + math(r.Size))))
+//@   ensures[err] implies(result1 != nil, result0 == 0 && unchanged(r.offset))
+//@   ensures[iff] (result1 == nil) == (r.Size >= 0 && 0 <= whence && whence <= 2 && 0 <= ite(whence == 0, math(offset), ite(whence == 1, math(offset) + math(old(r.offset)), math(offset) + math(r.Size))) && ite(whence == 0, math(offset), ite(whence == 1, math(offset) + math(old(r.offset)), math(offset) + math(r.Size))) < 9223372036854775808)
+//@   modifies r.offset
